@@ -42,7 +42,7 @@ private theorem fill_cache (f : K → P → V) (k j : K) (o : Obj P K V) :
   · rename_i h
     by_cases hj : j = k
     · subst hj; simp [h]
-    · cases hc : o.cache j <;> simp [hj]
+    · cases hc : o.cache j <;> simp [hj, hc]
 
 private theorem fillAll_p (f : K → P → V) (js : List K) (o : Obj P K V) :
     (fillAll f js o).p = o.p := by
@@ -195,5 +195,182 @@ example : run (fun (_ : Slot) (p : Nat) => p) (fun _ => []) [.inv, .hash] (fresh
   perm_same_state _ _ _ _ _ (List.Perm.swap _ _ _)
 
 end Cache
+
+/-! ## Part 2: equality / hash tables -/
+
+section Generic
+variable {V : Type}
+
+private theorem subset_mem {a b : List String} (h : subset a b = true) {x : String} (hx : x ∈ a) :
+    x ∈ b := by
+  unfold subset at h
+  rw [List.all_eq_true] at h
+  exact List.contains_iff_mem.mp (h x hx)
+
+private theorem allRel_map (r : V → V → Prop) (l : List String) (F G : String → V)
+    (h : ∀ x ∈ l, r (F x) (G x)) : AllRel r (l.map F) (l.map G) := by
+  induction l with
+  | nil => exact AllRel.nil
+  | cons x l ih =>
+    exact AllRel.cons (h x (List.mem_cons_self ..)) (ih fun y hy => h y (List.mem_cons_of_mem _ hy))
+
+/-- What equality establishes: every *stored attribute* that some compared field resolves to is
+`r`-related in the two objects. -/
+private theorem eq_on_canon (e : ClassEntry) (r : V → V → Prop) (a b : String → V)
+    (heq : eqObj e r a b) {x : String} (hx : x ∈ e.canonEq) : r (a x) (b x) := by
+  unfold ClassEntry.canonEq at hx
+  obtain ⟨g, hg, rfl⟩ := List.mem_map.mp hx
+  exact heq g hg
+
+private theorem sound_parts {e : ClassEntry} (hs : soundEntry e = true) (hc : e.abstract = false) :
+    understood e = true ∧ coversDenote e = true ∧ hashWithinEq e = true ∧ eqOnParams e = true := by
+  unfold soundEntry at hs
+  simp only [hc, Bool.false_or, Bool.and_eq_true] at hs
+  exact ⟨hs.1.1.1, hs.1.1.2, hs.1.2, hs.2⟩
+
+/-- `eq_imp_hash_eq`: for EVERY concrete class entry satisfying the soundness predicate, every value
+relation `r`, every hash combiner `h` respecting `r`: objects that `_check_equality` accepts have
+equal `_compute_hash`. -/
+theorem eq_imp_hash_eq {H : Type} (e : ClassEntry) (hs : soundEntry e = true)
+    (hc : e.abstract = false) (r : V → V → Prop) (h : List V → H) (hr : Respects r h)
+    (a b : String → V) (heq : eqObj e r a b) : hashObj e h a = hashObj e h b := by
+  obtain ⟨_, _, hh, _⟩ := sound_parts hs hc
+  unfold hashObj
+  apply hr
+  apply allRel_map
+  intro f hf
+  have : e.canon f ∈ e.canonHash := List.mem_map.mpr ⟨f, hf, rfl⟩
+  exact eq_on_canon e r a b heq (subset_mem hh this)
+
+/-- `eq_imp_same_denote`: ... and equal dense arrays, the array being any function (respecting `r`)
+of the hand-listed `denoteParams` of the class. -/
+theorem eq_imp_same_denote {D : Type} (e : ClassEntry) (hs : soundEntry e = true)
+    (hc : e.abstract = false) (r : V → V → Prop) (d : List V → D) (hr : Respects r d)
+    (a b : String → V) (heq : eqObj e r a b) : denoteObj e d a = denoteObj e d b := by
+  obtain ⟨_, hd, _, _⟩ := sound_parts hs hc
+  unfold coversDenote at hd
+  simp only [Bool.and_eq_true] at hd
+  unfold denoteObj
+  apply hr
+  apply allRel_map
+  intro x hx
+  exact eq_on_canon e r a b heq (subset_mem hd.2 hx)
+
+/-- `same_params_imp_eq`: objects (of a sound concrete class) whose stored constructor parameters
+are pairwise `r`-related compare equal — equality reads nothing but stored parameters (no lazily
+filled cache), so rebuilding an object from equal parameters gives an equal object whatever was
+computed on either in the meantime. -/
+theorem same_params_imp_eq (e : ClassEntry) (hs : soundEntry e = true) (hc : e.abstract = false)
+    (r : V → V → Prop) (a b : String → V) (hp : ∀ x ∈ e.params, r (a x) (b x)) :
+    eqObj e r a b := by
+  obtain ⟨_, _, _, hq⟩ := sound_parts hs hc
+  unfold eqOnParams at hq
+  simp only [Bool.and_eq_true] at hq
+  intro f hf
+  have : e.canon f ∈ e.canonEq := List.mem_map.mpr ⟨f, hf, rfl⟩
+  exact hp _ (subset_mem hq.1.1 this)
+
+end Generic
+
+/-! ### The obligations on the generated table (re-decided on every run) -/
+
+open MiciVerif.Generated.MatrixEq
+
+/-- The generated table lists exactly the classes of the hand-written expected list, with the same
+abstractness, in source order (a new class without a `denoteParams` entry breaks this). -/
+theorem table_complete : complete table = true := by decide +kernel
+
+/-- Every concrete class's `_check_equality`, `_compute_hash`, `__eq__`, `__hash__` and `__init__`
+chain were of the understood shapes (no `unknown`), each compared field is compared against the same
+field of `other`. -/
+theorem eq_hash_understood : (table.all fun e => e.abstract || understood e) = true := by
+  decide +kernel
+
+/-- Equality compares every stored parameter the dense array depends on (after alias resolution). -/
+theorem eq_fields_cover_denote_params :
+    (table.all fun e => e.abstract || coversDenote e) = true := by decide +kernel
+
+/-- The hash reads only attributes that equality compares. -/
+theorem hash_fields_subset_eq_fields :
+    (table.all fun e => e.abstract || hashWithinEq e) = true := by decide +kernel
+
+/-- Equality reads only parameters stored by the constructor chain (never a lazily filled cache),
+and the `denoteParams` are stored parameters. -/
+theorem eq_fields_are_stored_params :
+    (table.all fun e => e.abstract || eqOnParams e) = true := by decide +kernel
+
+/-- Array parameters handed to `Matrix.__init__` through its kwargs are set read-only there. -/
+theorem kwargs_params_frozen : (table.all frozenOk) = true := by decide +kernel
+
+/-- All of the above: the generated table satisfies the soundness predicate. -/
+theorem table_sound : Sound table = true := by decide +kernel
+
+private theorem entry_sound {e : ClassEntry} (he : e ∈ table) : soundEntry e = true := by
+  have := table_sound
+  unfold Sound at this
+  rw [List.all_eq_true] at this
+  exact this e he
+
+/-- `a == b ⇒ hash(a) == hash(b)` for every concrete class of the tree under test. -/
+theorem table_eq_imp_hash_eq {V H : Type} (e : ClassEntry) (he : e ∈ table)
+    (hc : e.abstract = false) (r : V → V → Prop) (h : List V → H) (hr : Respects r h)
+    (a b : String → V) (heq : eqObj e r a b) : hashObj e h a = hashObj e h b :=
+  eq_imp_hash_eq e (entry_sound he) hc r h hr a b heq
+
+/-- `a == b ⇒` equal dense arrays, for every concrete class of the tree under test. -/
+theorem table_eq_imp_same_denote {V D : Type} (e : ClassEntry) (he : e ∈ table)
+    (hc : e.abstract = false) (r : V → V → Prop) (d : List V → D) (hr : Respects r d)
+    (a b : String → V) (heq : eqObj e r a b) : denoteObj e d a = denoteObj e d b :=
+  eq_imp_same_denote e (entry_sound he) hc r d hr a b heq
+
+/-! ### Non-vacuity -/
+
+/-- The table is not empty, has concrete entries, and these entries compare something. -/
+example : (table.filter fun e => !e.abstract).length = 32 := by decide +kernel
+example : (table.filter fun e => !e.abstract && !e.eqFields.isEmpty && !e.hashFields.isEmpty).length
+    = 32 := by decide +kernel
+
+/-- The predicate is falsifiable: the pre-fix `InverseTriangularMatrix` (equality and hash ignore
+`lower`) and the pre-fix symmetric low-rank class (ignore `_sign`) are rejected. -/
+example : soundEntry
+    { name := "InverseTriangularMatrix", abstract := false, mro := [], hashFrom := "", eqFrom := "",
+      dunderOk := true, hashFields := ["_inverse_array"], eqFields := ["_inverse_array"],
+      eqSameName := true, unknown := false, unknownWhy := "",
+      params := ["_shape", "_inverse_array", "_lower"], caches := ["_hash"], frozen := ["_inverse_array"],
+      aliases := [], handAliases := [] } = false := by decide +kernel
+
+example : soundEntry
+    { name := "SymmetricLowRankUpdateMatrix", abstract := false, mro := [], hashFrom := "", eqFrom := "",
+      dunderOk := true, hashFields := ["factor_matrix", "square_matrix", "inner_square_matrix"],
+      eqFields := ["factor_matrix", "symmetric_matrix", "inner_symmetric_matrix"],
+      eqSameName := true, unknown := false, unknownWhy := "",
+      params := ["factor_matrix", "symmetric_matrix", "inner_symmetric_matrix", "left_factor_matrix",
+        "right_factor_matrix", "square_matrix", "inner_square_matrix", "_capacitance_matrix", "_sign", "_shape"],
+      caches := ["_hash"], frozen := [],
+      aliases := [], handAliases := [("factor_matrix", "left_factor_matrix"),
+        ("symmetric_matrix", "square_matrix"), ("inner_symmetric_matrix", "inner_square_matrix")] } = false := by
+  decide +kernel
+
+/-- A hash that reads an attribute equality does not compare is rejected. -/
+example : soundEntry
+    { name := "DiagonalMatrix", abstract := false, mro := [], hashFrom := "", eqFrom := "",
+      dunderOk := true, hashFields := ["diagonal", "_hash_salt"], eqFields := ["diagonal"],
+      eqSameName := true, unknown := false, unknownWhy := "",
+      params := ["_shape", "_diagonal", "_hash_salt"], caches := [], frozen := ["_diagonal"],
+      aliases := [("diagonal", "_diagonal")], handAliases := [] } = false := by decide +kernel
+
+/-- The hypotheses of the generic theorems are satisfiable: the `InverseTriangularMatrix` entry of
+the current table, values compared by `=`, two objects agreeing on `_inverse_array` and `_lower`. -/
+example : ∃ e ∈ table, e.name = "InverseTriangularMatrix" ∧ e.abstract = false ∧
+    eqObj e (· = ·) (fun f => if f = "_lower" then 1 else 7) (fun f => if f = "_lower" then 1 else 7) := by
+  refine ⟨table[17], by decide +kernel, by decide +kernel, by decide +kernel, ?_⟩
+  intro f _; rfl
+
+/-- ... and `eqObj` is not trivially true: objects differing in `_lower` are unequal. -/
+example : ¬ eqObj (V := Nat) table[17] (· = ·) (fun f => if f = "_lower" then 1 else 7) (fun _ => 7) := by
+  intro h
+  have := h "lower" (by decide +kernel)
+  revert this
+  decide +kernel
 
 end MiciVerif.C19
